@@ -185,6 +185,7 @@ static void conformance_suspending()
     if (!thrown) vio("misuse", "lock() on an owned mutex was not reported as error::deadlock");
     // a foreign task must not be able to unlock, and its try_lock must fail
     std::atomic<int> foreign{0};
+    std::atomic<bool> foreign_done{false};
     pika::thread t([&] {
         if (m.try_lock()) foreign |= 1;
         try
@@ -196,10 +197,12 @@ static void conformance_suspending()
         {
             if (e.get_error() != pika::error::lock_error) foreign |= 4;
         }
+        foreign_done = true;
     });
     if (t.joinable()) t.join();
     else
-        while (false) {}
+        // known finding D12 (shared-priority): the thread exists but cannot be joined; it references this frame
+        while (!foreign_done.load()) pika::this_thread::yield();
     if (foreign & 1) vio("try_lock", "try_lock() succeeded on a mutex held by another task");
     if (foreign & 2) vio("misuse", "unlock() by a non-owner was accepted");
     if (foreign & 4) vio("misuse", "unlock() by a non-owner reported the wrong error");
